@@ -24,6 +24,7 @@ var callID = map[string]int{
 	"mergeAndPersistInvertedSection": 25, "mergeAndPersistSynonymSection": 26, "flushSectionMetadata": 27,
 	"mergeAndWriteVectorIndexes": 28, "visitStoredFields": 29, "Write": 30,
 	"Lock": 31, "Unlock": 32, "closeActual": 33, "AddRef": 34, "DecRef": 35, "mergeSegmentBases": 36, "VisitStoredFields": 37,
+	"load": 38, "insertLOCKED": 39, "RLock": 40, "RUnlock": 41, "createAndCacheLOCKED": 42,
 }
 
 type skTarget struct {
@@ -37,6 +38,7 @@ var skTargets = []string{
 	"faissVectorIndexSection.Merge", "invertedTextIndexSection.Merge", "synonymIndexSection.Merge",
 	"vectorIndexOpaque.mergeAndWriteVectorIndexes", "vectorIndexOpaque.writeVectorIndexes",
 	"Segment.AddRef", "Segment.DecRef", "Segment.Close", "ZapPlugin.Merge", "mergeStoredAndRemap",
+	"vectorIndexCache.loadFromCache", "vectorIndexCache.createAndCacheLOCKED",
 }
 
 func calleeName(x ast.Expr) string {
